@@ -96,6 +96,9 @@ func (m *ConnackMessage) Decode(src []byte) (int, error) {
 		return total, err
 	}
 
+	// The packet ends where the fixed header says it ends.
+	src = src[:total+int(m.remlen)]
+
 	if len(src) < total+2 {
 		return total, fmt.Errorf("connack/Decode: Insufficient buffer size. Expecting %d, got %d", total+2, len(src))
 	}
@@ -118,6 +121,10 @@ func (m *ConnackMessage) Decode(src []byte) (int, error) {
 
 	m.returnCode = ConnackCode(b)
 	total++
+
+	if total != len(src) {
+		return total, fmt.Errorf("connack/Decode: Remaining length (%d) does not match the packet", m.remlen)
+	}
 
 	m.dirty = false
 
